@@ -15,7 +15,7 @@
    What is NOT proved here: that the static read/write-set analysis (harness/gen_objects.py) is sound
    for Python (hypotheses [reads_sound], [gen_covers] below); real thread scheduling and the GIL. *)
 From Coq Require Import List String Bool NArith Arith.
-From BU Require Import Gen.Objects Model.Memo.
+From BU Require Import Gen.Objects Model.Memo Model.Objects.
 From BU Require Lemmas.Memo Lemmas.ObjectsOk Lemmas.ObjectsExpected.
 Import ListNotations.
 Open Scope string_scope.
